@@ -127,7 +127,7 @@ func checkC03(ctx *Ctx) {
 			return t
 		}
 		text := func(t []string) string { return sh.Prefix + strings.Join(t, ".") }
-		nT, nM, nSweep := 0, 0, 0
+		nT, nM, nSweep, nUse := 0, 0, 0, 0
 		for _, n := range sh.Arities {
 			for it := 0; it < nPairs/len(sh.Arities); it++ {
 				t1 := mk(n)
@@ -270,12 +270,52 @@ func checkC03(ctx *Ctx) {
 								v.Finding = f
 							}
 							res.violate(v)
+						} else if it%3 == 0 && e.ParseRange != nil {
+							// the same two VALUES after they have been used: printed, and tested
+							// against ranges written around the base (comparators and every shorthand
+							// of the ecosystem, on the base and on longer spellings of it).  A version
+							// that has been looked at is still that version.
+							var used []string
+							bases := []string{base, base + ".1", base + ".0.1", text(mk(n)), marked}
+							var rngs []string
+							if syn := rangeSyn[e.Name]; syn != nil {
+								for _, b := range bases {
+									for _, f := range syn.Short {
+										rngs = append(rngs, f(r, b))
+									}
+									for _, op := range []string{">=", "<"} {
+										for _, so := range syn.Ops {
+											if so == op {
+												rngs = append(rngs, op+b)
+											}
+										}
+									}
+								}
+							}
+							for _, k := range r.Perm(len(rngs)) {
+								if len(used) >= 6 {
+									break
+								}
+								if pr := e.ParseRange(rngs[k]); pr.OK {
+									e.Contains(pr.Val, pm.Val)
+									e.Contains(pr.Val, pb.Val)
+									used = append(used, rngs[k])
+								}
+							}
+							e.Str(pm.Val)
+							e.Str(pb.Val)
+							got2, back2 := cmpS(e, pm.Val, pb.Val), cmpS(e, pb.Val, pm.Val)
+							nUse++
+							if got2 != want || back2 != -want {
+								res.violate(Violation{Eco: e.Name, Kind: kind + "-marker-order/after-use", Input: map[string]any{"marked": marked, "base": base, "then_contains_of": used},
+									Expected: fmt.Sprintf("%d (as before the calls)", want), Actual: fmt.Sprint(got2)})
+							}
 						}
 					}
 				}
 			}
 		}
-		dist[e.Name] = map[string]int{"tuple_pairs": nT, "marker_cases": nM, "boundary_sweep_pairs": nSweep}
+		dist[e.Name] = map[string]int{"tuple_pairs": nT, "marker_cases": nM, "marker_cases_after_use": nUse, "boundary_sweep_pairs": nSweep}
 	}
 	res.DistinctNontrivial = len(distinct)
 	res.Distribution["per_ecosystem"] = dist
